@@ -158,6 +158,7 @@ _UID_POOLS = (
     ("utt0", "utt1", "utt2", "utt3", "utt4", "utt5"),
     ("utt10", "utt1", "utt", "spk-utt10", "ab", "a"),
     ("a", "ab", "utt", "utt1", "utt10-x", "x-utt"),
+    ("rec1.seg1", "rec1.seg2", "spk.a.001", "rec1", "x.pt", "spk.a"),
 )
 
 
@@ -354,8 +355,10 @@ def _run_torch(case, td, syntax, tag, seed=None, workers=0):
     os.makedirs(raw, exist_ok=True)
     mp = os.path.join(td, "map_%s.txt" % tag)
     with open(mp, "w") as f:
-        for utt, (kind, arr, sel) in inputs.items():
+        for j, (utt, (kind, arr, sel)) in enumerate(inputs.items()):
             p = _write_container(os.path.join(raw, utt), kind, arr, utt)
+            if case.get("ids", 0) % 2 and j in (1, 2):
+                f.write("\n" if j == 1 else "  \n")  # blank lines in the map are skipped by the tool
             f.write("%s %s\n" % (utt, p))
     outdir = os.path.join(td, "out_%s" % tag)
     args = [mp]
@@ -456,9 +459,9 @@ def check_seed(case):
             require(raw1 == raw2, "two runs with --seed {} differ", case["seed"])
             c["seed"] = case["seed"] + 1
             rc3, s3, raw3 = _run_kaldi(c, td, "inline", "c")
-            nz = any(v.size for v in s1.values())
-            if nz and any(u["n"] >= 64 for u in case["utts"]):
-                require(raw3 != raw1, "a different --seed produced identical dithered features")
+            # not part of the statement, only a measure of what the case could see: if another seed gives the same
+            # bytes the features are insensitive to the dither (e.g. a filter without any response) and the case is trivial
+            visible = raw3 != raw1
         else:
             import torch
 
@@ -469,9 +472,10 @@ def check_seed(case):
             for u in s1:
                 require(np.array_equal(s1[u], s2[u]), "{}: two runs with --seed {} differ (num-workers {} vs 0)", u, case["seed"], case.get("workers", 0))
             rc3, s3, _ = _run_torch(c, td, "inline", "c", seed=case["seed"] + 1)
-            if any(v.size >= 8 for v in s1.values()):
-                require(any(not np.array_equal(s1[u], s3[u]) for u in s1), "a different --seed produced identical dithered features")
-    return {"nontrivial": len(case["utts"]) >= 2, "labels": ["tool=" + case["tool"], "workers" if case.get("workers") else "noworkers"]}
+            visible = any(not np.array_equal(s1[u], s3[u]) for u in s1)
+    return {"nontrivial": visible and len(case["utts"]) >= 2,
+            "labels": ["tool=" + case["tool"], "workers" if case.get("workers") else "noworkers",
+                       "dither visible in the features" if visible else "dither invisible in the features"]}
 
 
 # ----------------------------------------------------------------- generators
@@ -522,7 +526,7 @@ def _kaldi_cases(draw):
         "channel": channel, "min_duration": min_dur,
         "syntax": syn, "other_syntax": draw(st.sampled_from([None, None, "inline", "json", "yaml"])),
         "alias_key": draw(st.sampled_from(["alias", "name"])), "seed": draw(st.one_of(st.none(), st.integers(0, 1000))),
-        "ids": draw(st.integers(0, 2)),
+        "ids": draw(st.integers(0, 3)),
     }
 
 
@@ -556,7 +560,7 @@ def _torch_cases(draw):
         "manifest": draw(st.one_of(st.none(), st.none(), st.lists(st.integers(0, nutt - 1), max_size=2, unique=True),
                                    st.sampled_from([[0], [1], [0, 3], [4], [3, 1]]))),
         "workers": draw(st.sampled_from([0] * 11 + [2])),
-        "ids": draw(st.integers(0, 2)),
+        "ids": draw(st.integers(0, 3)),
     }
 
 
@@ -580,6 +584,6 @@ def clauses(tier):
     return [
         Clause("kaldi_tool", check_kaldi, "compute-feats-from-kaldi-tables vs the library pipeline; " + nt, _kaldi_cases, quick=140, thorough=4000),
         Clause("torch_tool", check_torch, "signals-to-torch-feat-dir vs the library pipeline; " + nt, _torch_cases, quick=450, thorough=9000),
-        Clause("fixed_seed", check_seed, "dither > 0: same --seed twice identical, seed+1 different; non-trivial = >= 2 utterances", _seed_cases,
+        Clause("fixed_seed", check_seed, "dither > 0: the same --seed twice gives identical output (second run under different ambient RNG state / worker count); non-trivial = >= 2 utterances and another seed changes the output (the dither is visible in the features)", _seed_cases,
                quick=30, thorough=800),
     ]
